@@ -710,6 +710,58 @@ pub fn accuracy(args: &[String]) {
             k += 1;
         } } }
     }
+    // a nonlinear planar problem with closed-form solution (radial logistic law plus rotation) over many end times, without
+    // requested times, so that the last sample is the state of the landing step itself: whatever happens to that step
+    // (shortened and repeated after a slow or diverging Newton iteration, rejected, stretched) the sample at xend has to be
+    // the solution there.  Both directions (the backward runs integrate the time-reflected field).
+    {
+        let mut r2 = Rng(seed ^ 0xAD1A);
+        let mut k = 0;
+        for method in METHODS { for r in [10.0, 30.0, 100.0] { for _ in 0..(4 + cases / 40) { for dir in [1.0, -1.0] { for rtol in [1e-4, 1e-6, 1e-8] {
+            let span = r2.range(8.0, 35.0) / r;
+            let atol = 1e-3 * rtol;
+            let p = RadialLogistic { r, w: 3.0, dir };
+            let o = Options::builder().method(method).rtol(rtol).atol(atol).build();
+            let (mut why, mut extra) = (String::new(), String::new());
+            match catch_unwind(AssertUnwindSafe(|| solve_ivp(&p, 0.0, dir * span, &[0.1, 0.0], o))) {
+                Ok(Ok(s)) => {
+                    let nacc = s.naccpt.max(1) as f64;
+                    let (mut rmax, mut tworst) = (0.0f64, 0.0);
+                    for (t, y) in s.t.iter().zip(s.y.iter()) {
+                        let ex = p.exact(*t);
+                        let size = ex[0].abs().max(ex[1].abs());
+                        let q = (y[0] - ex[0]).abs().max((y[1] - ex[1]).abs()) / (10.0 * nacc * (atol + rtol * size));
+                        if !(q <= rmax) { rmax = q; tworst = *t; }
+                    }
+                    extra = format!("\"r\":{},\"span\":{},\"dir\":{},\"rtol\":{},\"naccpt\":{},\"ratio\":{},", r, span, dir, jnum(rtol), s.naccpt, jnum(rmax));
+                    if s.status != Status::Success { why = format!("status {:?}", s.status); }
+                    else if !(rmax <= 0.5) { why = format!("radial logistic r = {}, span {}, dir {}, rtol {:e}: error at t = {} is {:.2} times 10 * naccpt * (atol + rtol |y|) ({} accepted steps)", r, span, dir, rtol, tworst, rmax, s.naccpt); }
+                }
+                _ => why = "run fails".into(),
+            }
+            row("ac", 220000 + k, "radial-logistic", Kind::Mixed, method, "c01-accuracy", &why, &extra);
+            k += 1;
+        } } } } }
+    }
+}
+
+/// x' = r x (1 - x^2 - y^2) - w y, y' = r y (1 - x^2 - y^2) + w x from (0.1, 0): rho = x^2 + y^2 obeys rho' = 2 r rho (1 - rho),
+/// the polar angle grows as w t; `dir = -1`: the time-reflected field (integrated over [0, -span])
+struct RadialLogistic { r: f64, w: f64, dir: f64 }
+impl IVP for RadialLogistic {
+    fn ode(&self, _t: f64, y: &[f64], d: &mut [f64]) {
+        let rho = y[0] * y[0] + y[1] * y[1];
+        d[0] = self.dir * (self.r * y[0] * (1.0 - rho) - self.w * y[1]);
+        d[1] = self.dir * (self.r * y[1] * (1.0 - rho) + self.w * y[0]);
+    }
+}
+impl RadialLogistic {
+    fn exact(&self, t: f64) -> [f64; 2] {
+        let s = self.dir * t;
+        let rho = 1.0 / (1.0 + (1.0 / 0.01 - 1.0) * (-2.0 * self.r * s).exp());
+        let a = rho.sqrt();
+        [a * (self.w * s).cos(), a * (self.w * s).sin()]
+    }
 }
 
 /// y_i' = lam_i y_i started at a state of size `size` (two uncoupled components)
